@@ -285,11 +285,14 @@ def pool_codec(ctx):
     Sg = Sym(prog, g)
     gops = binops(g, Sg)
     ok = len([o for o in gops if o[0] == "Shr" and o[1][1] == "c:16"]) == 1 and len([o for o in gops if o[0] == "BitAnd" and o[1][1] == "c:65535"]) == 1 and \
-        len([o for o in gops if (o[0] == "Gt" and "65535" in o[1][1]) or (o[0] == "Lt" and "65535" in o[1][0]) or (o[0] == "Ge" and "65536" in o[1][1]) or (o[0] == "Le" and "65536" in o[1][0])]) == 1
+        len([o for o in gops if (o[0] == "Gt" and "65535" in o[1][1]) or (o[0] == "Lt" and "65535" in o[1][0]) or (o[0] == "Ge" and "65536" in o[1][1]) or (o[0] == "Le" and "65536" in o[1][0]) or
+             (o[0] in ("Ne", "Gt") and "Shr c:16" in o[1][0] and o[1][1] == "c:0") or (o[0] == "Ne" and "Shr c:16" in o[1][1] and o[1][0] == "c:0")]) == 1
     ctx.check(ok, R, "writer's long-string escape", "len > 0xffff => 0, len >> 16; then len & 0xffff", "write_pool's long-string escape does not mirror the reader's split (>> 16 / & 0xffff / > 0xffff)", g.loc(), fn=g.name)
     # the escape marker is a ZERO length word (that is what the reader tests for), followed by the high half
     esc_w = [(b, args) for b, n, args, t in symcalls(prog, g, Sg) if io_width(t) and any(x[0] == "len>64k" for x in [("len>64k",)] ) and
-             any((tr is True and re.search(r" Gt \(?c:65535", e)) or (tr is True and re.search(r"c:65535[^,]*\) Lt ", e)) or (tr is False and re.search(r" Le \(?c:65535", e))
+             any((tr is True and re.search(r" Gt \(?c:65535", e)) or (tr is True and re.search(r"c:65535[^,]*\) Lt ", e)) or (tr is False and re.search(r" Le \(?c:65535", e)) or
+                 # the same test on the high half: `(len >> 16) as u16 != 0`
+                 (tr is True and re.search(r"Shr c:16\)(?: as u16\))? (Ne|Gt) c:0\)$", e)) or (tr is False and re.search(r"Shr c:16\)(?: as u16\))? Eq c:0\)$", e))
                  for (e, tr, gg) in Sg.bool_facts_at(b))]
     first_esc = sorted(esc_w, key=lambda w: len(cfg.dominators(g)[w[0]]))[:1]
     ctx.check(bool(first_esc) and first_esc[0][1][1] == "c:0", R, "long-string escape starts with a zero length word", str([w[1][1] for w in first_esc]),
